@@ -188,7 +188,7 @@ macro_rules! rule_instance {
 //@ instance: c09_minutely_3 c09_weekly_3 c09_daily_last_3 c09_hourly_3 c09_monthly_3 c09_quarterly_3 c09_halfyearly_3 c09_yearly_3 c09_weekly_4
 //@ harness: c09_minutely_3 c09_weekly_3 c09_daily_last_3
 //@ prop: C09
-//@ tier: quick
+//@ tier: experimental
 //@ timeout: 1800
 //@ mem: 16
 //@ unwindset: ^memcmp#0=34; encode_to|to_hex|hex=70; btree=2; KeepOptions.*matches=11; binary_search_by=12; from_iter|extend|collect|fold=11
@@ -204,7 +204,7 @@ rule_instance!(c09_weekly_3, 3, Rule::Weekly, false);
 rule_instance!(c09_daily_last_3, 3, Rule::Daily, true);
 //@ harness: c09_hourly_3 c09_monthly_3 c09_quarterly_3 c09_halfyearly_3 c09_yearly_3 c09_weekly_4
 //@ prop: C09
-//@ tier: thorough
+//@ tier: experimental
 //@ timeout: 3000
 //@ mem: 24
 //@ unwindset: ^memcmp#0=34; encode_to|to_hex|hex=70; btree=2; KeepOptions.*matches=11; binary_search_by=12; from_iter|extend|collect|fold=11
@@ -220,3 +220,72 @@ rule_instance!(c09_quarterly_3, 3, Rule::Quarterly, false);
 rule_instance!(c09_halfyearly_3, 3, Rule::HalfYearly, false);
 rule_instance!(c09_yearly_3, 3, Rule::Yearly, false);
 rule_instance!(c09_weekly_4, 4, Rule::Weekly, false);
+
+
+// ---------------------------------------------------------------------------
+// quick tier: the eight period predicates on two snapshots (no Vec, no sort, no clones: KeepOptions::apply on
+// three snapshots does not get through symbolic execution in 30 min - B-tree clone/drop of the empty
+// StringLists inside each SnapshotFile, see DESIGN 11)
+// ---------------------------------------------------------------------------
+fn predicates_check(which: u8) {
+    let c0 = any_civ();
+    let c1 = any_civ();
+    store(0, &c0);
+    store(1, &c1);
+    kani::assume(civ_key(&c0) >= civ_key(&c1));
+    let s0 = snap(time_of(0, &c0), 0);
+    let s1 = snap(time_of(1, &c1), 1);
+    if which == 0 {
+        assert!(equal_minute(&s0, &s1) == same_period(Rule::Minutely, &c0, &c1));
+        assert!(equal_hour(&s0, &s1) == same_period(Rule::Hourly, &c0, &c1));
+        assert!(equal_day(&s0, &s1) == same_period(Rule::Daily, &c0, &c1));
+        assert!(equal_month(&s0, &s1) == same_period(Rule::Monthly, &c0, &c1));
+        assert!(equal_quarter_year(&s0, &s1) == same_period(Rule::Quarterly, &c0, &c1));
+        assert!(equal_half_year(&s0, &s1) == same_period(Rule::HalfYearly, &c0, &c1));
+        assert!(equal_year(&s0, &s1) == same_period(Rule::Yearly, &c0, &c1));
+        // symmetric
+        assert!(equal_minute(&s1, &s0) == equal_minute(&s0, &s1));
+        assert!(!always_false(&s0, &s1));
+        kani::cover!(same_period(Rule::Hourly, &c0, &c1) && !same_period(Rule::Minutely, &c0, &c1), "same hour, different minute");
+        kani::cover!(same_period(Rule::Daily, &c0, &c1) && c0.h != c1.h && c0.mi == c1.mi, "same day and minute-of-hour, different hour");
+        kani::cover!(same_period(Rule::HalfYearly, &c0, &c1) && !same_period(Rule::Quarterly, &c0, &c1), "same half year, different quarter");
+    } else {
+        assert!(equal_week(&s0, &s1) == same_period(Rule::Weekly, &c0, &c1));
+        assert!(equal_week(&s1, &s0) == equal_week(&s0, &s1));
+        kani::cover!(c0.y != c1.y && same_period(Rule::Weekly, &c0, &c1), "one ISO week across a calendar-year edge");
+        kani::cover!(c0.y == c1.y && c0.w == c1.w && c0.wy != c1.wy, "same calendar year and week number, different ISO week-years");
+    }
+    std::mem::forget(s0); std::mem::forget(s1);
+}
+macro_rules! pred_instance {
+    ($name:ident, $which:expr) => {
+        #[kani::proof]
+        #[kani::unwind(5)]
+        #[kani::stub(std::backtrace::Backtrace::capture, crate::error::verif_harness::stub_backtrace_capture)]
+        #[kani::stub(jiff::Zoned::year, st_year)]
+        #[kani::stub(jiff::Zoned::month, st_month)]
+        #[kani::stub(jiff::Zoned::day_of_year, st_doy)]
+        #[kani::stub(jiff::Zoned::hour, st_hour)]
+        #[kani::stub(jiff::Zoned::minute, st_minute)]
+        #[kani::stub(jiff::Zoned::iso_week_date, st_iso_week_date)]
+        #[kani::stub(jiff::civil::ISOWeekDate::year, st_iso_year)]
+        #[kani::stub(jiff::civil::ISOWeekDate::week, st_iso_week)]
+        pub(crate) fn $name() { predicates_check($which); }
+    };
+}
+//@ instance: c09_period_predicates c09_week_predicate
+//@ harness: c09_period_predicates c09_week_predicate
+//@ prop: C09
+//@ tier: quick
+//@ timeout: 1500
+//@ mem: 16
+//@ unwindset: binary_search_by=12
+//@ kernel: forget.rs equal_minute, equal_hour, equal_day, equal_week, equal_month, equal_quarter_year, equal_half_year, equal_year, always_false (the predicates KeepOptions::matches uses to decide "newest snapshot of its period")
+//@ bound: two snapshots with arbitrary valid civil times in 2014..=2021 (every ISO week-year edge 2014/15 .. 2021/22 occurs), first not older than second
+//@ oracle: each predicate holds exactly when both snapshots lie in the same period as the rule states it: same (y,m,d,h,mi) / (y,m,d,h) / (y,m,d) / ISO (week-year, week) / (y,m) / (y,quarter) / (y,half) / y; symmetric
+//@ stub: jiff::Zoned::{year, month, day_of_year, hour, minute, iso_week_date}, jiff::civil::ISOWeekDate::{year, week} -> fields of a symbolic civil time per marker instant, constrained by an in-harness Gregorian / ISO-8601 model
+//@ assume: jiff's accessors agree with the proleptic Gregorian / ISO-8601 calendar (jiff is trusted)
+//@ outside: the counting logic of KeepOptions::matches/apply (thorough-tier harnesses c09_*_3, which do not finish within their cap - recorded as inconclusive, not as proved), keep-within variants, tags/ids, delete marks, grouping
+//@ replay: twin
+pred_instance!(c09_period_predicates, 0);
+pred_instance!(c09_week_predicate, 1);
